@@ -115,3 +115,4 @@ pub fn delegate<const F: u64>(i: &mut Inp) -> Out {
     let r = table_decommit(table_commitment(2, 1, f, root), &[Felt::ZERO, Felt::ONE], Decommitment { values: moved.to_vec() }, no_witness(Vec::new()));
     Out::new(check(r.is_ok() == !changed, "table accepted iff the cells are the committed ones in their rows and columns"), r.is_ok())
 }
+
